@@ -455,6 +455,12 @@ def mon_c03(sc, controller):
                         want[key] = None
                 else:
                     fresh = [(a, k, v) for (a, k, v) in due if (ci, k) not in delivered]
+                    if len(fresh) > 1 and got.get(key, "<absent>") == max(fresh)[2]:
+                        # several values of ONE connection became due at this step: the step request has one slot per (input, source),
+                        # only the last value is delivered, the earlier ones are lost (read literally, C03 wants each exactly once)
+                        vio.append({"law": "each produced event value is delivered exactly once (several values of one connection due at one step: only the last arrives)",
+                                    "preset_finding": "C03-same-connection-events-collapse", "sim": i, "t": t, "connection": ci,
+                                    "due_values": [v for (_, _, v) in sorted(fresh)], "delivered": got.get(key), "event": idx, "keys": [], "nonmono": []})
                     if fresh:
                         want[key] = max(fresh)[2]
                         for (_, k, _) in fresh:
@@ -578,8 +584,8 @@ def mon_c17(sc, controller, outcome):
             t, clock = e[2][0], e[5]
             if clock < f * (t - 1):
                 vio.append({"law": "a step for time t must not begin before rt_factor*(t-1)", "sim": sid_i(e[1]), "t": t, "clock": clock, "rt_factor": f})
-    # external events
-    for req in sc.get("extra_async", []):
+    # external events (requested from within a step, or reaching the simulator from outside while it is idle)
+    for req in sc.get("extra_async", []) + [{"kind": "set_event", "sim": sid_i(sid), "time": t_ev} for sid, t_ev in getattr(controller, "injected", [])]:
         if req["kind"] != "set_event":
             continue
         sets = [(idx, e) for idx, e in enumerate(controller.full_trace) if e[0] == "set_event" and sid_i(e[1]) == req["sim"] and e[2] == req["time"]]
@@ -588,9 +594,13 @@ def mon_c17(sc, controller, outcome):
         idx0 = sets[0][0]
         t = req["time"]
         # time of the step during which the event was set
-        cur = [e for e in controller.full_trace[:idx0] if e[0] == "begin" and sid_i(e[1]) == req["sim"]][-1]
-        if t <= cur[2][0]:
-            past_event = True
+        for idx_i, _e in sets:
+            # (any request for a time that is not in the future of the step then running may end the run: not judged here)
+            bef_i = [e for e in controller.full_trace[:idx_i] if e[0] == "begin" and sid_i(e[1]) == req["sim"]]
+            if bef_i and t <= bef_i[-1][2][0]:
+                past_event = True
+        before = [e for e in controller.full_trace[:idx0] if e[0] == "begin" and sid_i(e[1]) == req["sim"]]
+        if before and t <= before[-1][2][0]:
             continue
         later = [e for e in controller.full_trace[idx0:] if e[0] == "begin" and sid_i(e[1]) == req["sim"] and e[2][0] == t]
         ignored = any(e[0] == "event-ignored" for e in controller.full_trace[idx0:])
@@ -600,7 +610,7 @@ def mon_c17(sc, controller, outcome):
         elif outcome == "finished" and not later:
             vio.append({"law": "set_event(t) for a future t < until causes a step at t", "request": req, "outcome": outcome})
         elif len(set(tuple(e[2]) for e in later)) != len(later) and all(
-                [b for b in controller.full_trace[:i] if b[0] == "begin" and sid_i(b[1]) == req["sim"]][-1][2][0] < t for i, _ in sets):
+                ([b for b in controller.full_trace[:i] if b[0] == "begin" and sid_i(b[1]) == req["sim"]] or [(None, None, (-1,))])[-1][2][0] < t for i, _ in sets):
             # (every request for t was made during a step before t: an event for the running step's own time is not "future")
             vio.append({"law": "set_event(t), however often it is requested, causes ONE step at t", "request": req,
                         "steps_at_t": [list(e[2]) for e in later]})
